@@ -229,14 +229,37 @@ func runHistory(hc histCase) {
 		initDoc, ok = parseJSON([]byte(*hc.Init))
 		if !ok {
 			run.Count("init:unparseable")
-			// not a JSON document (or duplicate keys): only "does not damage" is checked
+			// not ONE well-formed JSON document for the harness's strict reader (duplicate keys, trailing
+			// garbage, BOM, empty file ...): there is no ground truth for preservation.  Checked: opening
+			// does not change the file; when encoding/json does load it, a stored credential reads back,
+			// also after reopening, and the file is one JSON document afterwards.
 			fs, err := credentials.NewFileStore(path)
 			after, _ := os.ReadFile(path)
 			if string(after) != *hc.Init {
 				run.OracleFail(id, "load-damaged", "opening an unparseable config changed it", hc)
 			}
-			_ = fs
-			_ = err
+			run.Evaluations++
+			if err != nil {
+				run.Count("init:unparseable-refused")
+				return
+			}
+			run.Count("init:unparseable-but-loaded")
+			want := auth.Credential{Username: "u", Password: "p:q", RefreshToken: "r"}
+			if perr, pan := safePut(fs, "lenient.example", want); pan != nil || perr != nil {
+				run.OracleFail(id, "put-error", fmt.Sprintf("Put on a leniently loaded config: %v %v", perr, pan), hc)
+				return
+			}
+			if c, gerr, _ := safeGet(fs, "lenient.example"); gerr != nil || c != want {
+				run.OracleFail(id, "roundtrip", fmt.Sprintf("leniently loaded config: Get = %v %v", c, gerr), hc)
+			}
+			if _, _, bad := readDoc(path); bad {
+				run.OracleFail(id, "file-unparseable", "after a save the leniently loaded config is still not one JSON document", hc)
+			}
+			if fs2, err := credentials.NewFileStore(path); err != nil {
+				run.OracleFail(id, "reload", "the saved file does not load: "+err.Error(), hc)
+			} else if c, gerr := fs2.Get(context.Background(), "lenient.example"); gerr != nil || c != want {
+				run.OracleFail(id, "reload-roundtrip", fmt.Sprintf("reopened: Get = %v %v", c, gerr), hc)
+			}
 			return
 		}
 	}
